@@ -2,7 +2,7 @@ SPECIFICATION Spec
 CONSTANTS
   K = 3
   WProgs <- NoProg
-  RProgs <- R52
+  RProgs <- RT
   RawW = TRUE
   RawR = FALSE
   RawTotal = 5
